@@ -25,6 +25,7 @@
 #include <iostream>
 #include <sstream>
 #include <string>
+#include <functional>
 #include <vector>
 
 #include "boolean2.h"
@@ -69,8 +70,91 @@ static void warpPoint(int kind, double p1, double p2, vec2& v) {
       v.x = std::round(v.x / p1) * p1;
       v.y = std::round(v.y / p1) * p1;
       break;
+    case 5:  // integer translation (lattice preserving)
+      v.x += p1;
+      v.y += p2;
+      break;
+    case 6:  // axis swap (orientation reversing)
+      v = vec2(v.y, v.x);
+      break;
+    case 7:  // x -> 2x
+      v.x = 2.0 * v.x;
+      break;
+    case 8:  // unimodular integer shear
+      v.x += p1 * v.y;
+      break;
+    case 9:  // quarter turn
+      v = vec2(-v.y, v.x);
+      break;
+    case 10:  // mirror x -> -x (orientation reversing)
+      v.x = -v.x;
+      break;
     default:
       break;
+  }
+}
+
+// bit-exact dump of everything observable on a CrossSection
+static std::string dumpPolys(const Polygons& ps) {
+  std::string o = std::to_string(ps.size());
+  char buf[64];
+  for (const auto& c : ps) {
+    o += " " + std::to_string(c.size());
+    for (const vec2& v : c) {
+      std::snprintf(buf, sizeof buf, " %016" PRIx64 " %016" PRIx64, bits(v.x), bits(v.y));
+      o += buf;
+    }
+  }
+  return o;
+}
+
+// every public operation applied to a FRESH copy of `src` (a copy keeps a pending lazy
+// transform pending) and to a copy of the eagerly materialised `eager`; the two must agree bit for bit
+static void differential(const std::string& id, size_t k, const CrossSection& src) {
+  CrossSection eager = src;
+  eager.ToPolygons();  // materialise
+  auto shear = [](vec2& v) { v.x += 2.0 * v.y; };
+  auto shearBatch = [](VecView<vec2> pts) {
+    for (vec2& v : pts) v.x += 2.0 * v.y;
+  };
+  char buf[128];
+  struct Op {
+    const char* name;
+    std::function<std::string(const CrossSection&)> f;
+  };
+  const std::vector<Op> ops = {
+      {"ToPolygons", [&](const CrossSection& c) { return dumpPolys(c.ToPolygons()); }},
+      {"Area", [&](const CrossSection& c) { std::snprintf(buf, sizeof buf, "%016" PRIx64, bits(c.Area())); return std::string(buf); }},
+      {"NumVert", [&](const CrossSection& c) { return std::to_string(c.NumVert()); }},
+      {"NumContour", [&](const CrossSection& c) { return std::to_string(c.NumContour()); }},
+      {"IsEmpty", [&](const CrossSection& c) { return std::to_string((int)c.IsEmpty()); }},
+      {"Bounds", [&](const CrossSection& c) {
+         const Rect r = c.Bounds();
+         std::snprintf(buf, sizeof buf, "%016" PRIx64 " %016" PRIx64 " %016" PRIx64 " %016" PRIx64, bits(r.min.x), bits(r.min.y), bits(r.max.x), bits(r.max.y));
+         return std::string(buf);
+       }},
+      {"Warp", [&](const CrossSection& c) { return dumpPolys(c.Warp(shear).ToPolygons()); }},
+      {"WarpBatch", [&](const CrossSection& c) { return dumpPolys(c.WarpBatch(shearBatch).ToPolygons()); }},
+      {"Simplify", [&](const CrossSection& c) { return dumpPolys(c.Simplify(0.125).ToPolygons()); }},
+      {"OffsetMiter", [&](const CrossSection& c) { return dumpPolys(c.Offset(0.5, JoinType::Miter).ToPolygons()); }},
+      {"OffsetRound", [&](const CrossSection& c) { return dumpPolys(c.Offset(-0.25, JoinType::Round, 2.0, 8).ToPolygons()); }},
+      {"Hull", [&](const CrossSection& c) { return dumpPolys(c.Hull().ToPolygons()); }},
+      {"HullBatch", [&](const CrossSection& c) { return dumpPolys(CrossSection::Hull(std::vector<CrossSection>{c, c.Translate({1.0, 0.0})}).ToPolygons()); }},
+      {"Decompose", [&](const CrossSection& c) {
+         std::string o;
+         for (const auto& part : c.Decompose()) o += "|" + dumpPolys(part.ToPolygons());
+         return o;
+       }},
+      {"BooleanSelf", [&](const CrossSection& c) { return dumpPolys((c + c).ToPolygons()); }},
+      {"BatchBoolean", [&](const CrossSection& c) { return dumpPolys(CrossSection::BatchBoolean({c, c.Translate({1.0, 1.0})}, OpType::Add).ToPolygons()); }},
+      {"TranslateThenRead", [&](const CrossSection& c) { return dumpPolys(c.Translate({3.0, -2.0}).ToPolygons()); }},
+  };
+  for (const auto& op : ops) {
+    CrossSection lazy = src;    // fresh copy: transform still pending if it was
+    CrossSection mat = eager;   // copy of the materialised object
+    const std::string a = op.f(lazy);
+    const std::string b = op.f(mat);
+    std::printf("D %s %zu %s %d\n", id.c_str(), k, op.name, a == b ? 1 : 0);
   }
 }
 
@@ -108,6 +192,20 @@ int main() {
         }
         return reg[i];
       };
+      if (tok == "RD") {  // force a read of register i (materialises a pending transform)
+        const long i = ri();
+        const CrossSection& a = R(i);
+        if (bad) break;
+        a.ToPolygons();
+        continue;
+      }
+      if (tok == "DF") {  // lazy-vs-eager differential of every public operation on register i
+        const long i = ri();
+        const CrossSection& a = R(i);
+        if (bad) break;
+        differential(id, (size_t)i, a);
+        continue;
+      }
       if (tok == "P") {
         const long fill = ri(), nc = ri();
         Polygons ps;
@@ -135,7 +233,7 @@ int main() {
         const CrossSection& a = R(i);
         const CrossSection& b = R(j);
         if (bad) break;
-        eps = InferEps(a.ToPolygons(), b.ToPolygons());
+        eps = InferEps(CrossSection(a).ToPolygons(), CrossSection(b).ToPolygons());
         out = a.Boolean(b, op == 0   ? OpType::Add
                            : op == 1 ? OpType::Subtract
                                      : OpType::Intersect);
@@ -147,7 +245,7 @@ int main() {
           const CrossSection& a = R(ri());
           if (bad) break;
           v.push_back(a);
-          const Polygons p = a.ToPolygons();
+          const Polygons p = CrossSection(a).ToPolygons();
           all.insert(all.end(), p.begin(), p.end());
         }
         if (bad) break;
@@ -188,7 +286,10 @@ int main() {
         const double p1 = rd(), p2 = rd();
         const CrossSection& a = R(i);
         if (bad) break;
-        warped = a.ToPolygons();
+        {
+          CrossSection probe = a;  // a copy: reading it leaves a's pending transform pending
+          warped = probe.ToPolygons();
+        }
         for (auto& c : warped)
           for (auto& v : c) warpPoint((int)kind, p1, p2, v);
         haveWarp = true;
@@ -206,9 +307,11 @@ int main() {
         printPolys(warped);
         std::printf("\n");
       }
-      const Polygons ps = out.ToPolygons();
+      // observe through a copy: the register itself keeps any pending lazy transform until a later statement uses it
+      CrossSection seen = out;
+      const Polygons ps = seen.ToPolygons();
       std::printf("O %s %zu %016" PRIx64 " %016" PRIx64, id.c_str(), k, bits(eps),
-                  bits(out.Area()));
+                  bits(seen.Area()));
       printPolys(ps);
       std::printf("\n");
     }
